@@ -37,10 +37,14 @@ func After(d time.Duration) <-chan time.Time {
 	return ch
 }
 
-// Timer mirrors the part of time.Timer the library could use.
+// Timer mirrors the part of time.Timer the library could use. Inside a
+// controlled execution it is a modelled timer: Stop disarms it, Reset re-arms it
+// on the same channel, exactly one value is delivered per firing.
 type Timer struct {
 	C    <-chan time.Time
 	real *time.Timer
+	id   int
+	ch   chan time.Time
 }
 
 func NewTimer(d time.Duration) *Timer {
@@ -48,20 +52,21 @@ func NewTimer(d time.Duration) *Timer {
 		r := time.NewTimer(d)
 		return &Timer{C: r.C, real: r}
 	}
-	return &Timer{C: After(d)}
+	ch := make(chan time.Time, 1)
+	id := vrt.NewTimerChan(ch, int64(d), func(ns int64) any { return time.Unix(0, ns) })
+	return &Timer{C: ch, ch: ch, id: id}
 }
 
 func (t *Timer) Stop() bool {
 	if t.real != nil {
 		return t.real.Stop()
 	}
-	return true
+	return vrt.StopTimer(t.id)
 }
 
 func (t *Timer) Reset(d time.Duration) bool {
 	if t.real != nil {
 		return t.real.Reset(d)
 	}
-	t.C = After(d)
-	return true
+	return vrt.ResetTimer(t.id, int64(d))
 }
